@@ -289,11 +289,10 @@ impl FrameQueue {
 
         let mut last_send_time_ms = 0;
         let mut total_ack_size = 0;
-        let mut rate_limited = false;
-        let mut any_new_acks = false;
-
         #[cfg(uflow_verif)]
         crate::verif::trace::emit(crate::verif::trace::Event::AckGroupSeen { base_id: ack.base_id, bitfield: ack.bitfield });
+        let mut rate_limited = false;
+        let mut any_new_acks = false;
 
         let mut bitfield_size = 0;
         for i in (0 .. 32).rev() {
